@@ -1066,3 +1066,6 @@ CASES += [
  dict(id='mut-queens-write-outcome-dropped', kind='fire', file=Q, old='    writeln!(writer, "true")?;', new='    writeln!(writer, "true").ok();', expect={'C15': 'outcome of a write dropped'}, control=False),
  dict(id='mut-clique-write-outcome-dropped', kind='fire', file=C, old='writeln!(writer, "-({} & {}) &", complement.0, complement.1)?;', new='writeln!(writer, "-({} & {}) &", complement.0, complement.1).ok();', expect={'C16': 'outcome of a write dropped'}, control=False),
 ]
+CASES += [
+ dict(id='mut-ordering-export-names-run-together', kind='fire', file=M, old='            println!("{}", v);', new='            print!("{}", v);', expect={'C09': '-r', 'C11': '-r'}, control=False),
+]
